@@ -188,6 +188,61 @@ def judge_supplied(opseq, edit_label, edit_fn):
     return bad
 
 
+def judge_two_listings(opseq, label1, fn1, label2, fn2):
+    """two lazy listings requested from ONE object with two different tables before either is consumed, then consumed
+    alternately: each line must be named from the table its own request supplied."""
+    T = default_table()
+    ids = {n: E.n2i(n) for n in WORK}
+    recs, meta = stream_records(opseq, ids)
+    blob = B.v2([(1, 10, 'A'), (2, 20, 'B')], 0, recs)
+    f = PyKdebugParser()
+    f.show_timestamp = f.show_func_qual = f.show_tid = f.show_process = f.show_args = False
+    t1, t2 = fn1(T), fn2(T)
+    try:
+        g1 = f.formatted_kevents(io.BytesIO(blob), t1)
+        g2 = f.formatted_kevents(io.BytesIO(blob), t2)
+        out1, out2 = [], []
+        for _ in meta:
+            out1.append(next(g1))
+            out2.append(next(g2))
+    except Exception as ex:
+        return ('listing-raised:' + type(ex).__name__, {'error': repr(ex)[:200]})
+    for out, tab, lab in ((out1, t1, label1), (out2, t2, label2)):
+        for (ts, tid, eid, q), shown in zip(meta, out):
+            exp = f'{tab[eid]} ({hex(eid)})' if eid in tab else hex(eid)
+            if shown.rstrip() != exp:
+                return ('listing-name-not-from-supplied-table', {'table': lab, 'shown': shown.rstrip(), 'expected': exp, 'two_listings': [label1, label2]})
+    return None
+
+
+def judge_callstacks_table(label, fn):
+    """callstacks / formatted_callstacks under a supplied table == the same request on the id-renamed stream under the bundled table."""
+    T = default_table()
+    ids = {n: E.n2i(n) for n in WORK}
+    T2 = fn(T)
+    opseq = [(4, 1), (0, 1), (4, 2)]
+    recs, meta = stream_records(opseq, ids)
+    renamed = []
+    for r, (ts, tid, eid, q) in zip(recs, meta):
+        new = ids[T2[eid]] if eid in T2 and T2[eid] in ids else (eid if eid in T2 else 0xdead0000)
+        renamed.append(r[:48] + B.le(new | q, 4) + r[52:])
+    blob, blob_ren = B.v2([(1, 10, 'A')], 0, recs), B.v2([(1, 10, 'A')], 0, renamed)
+    def run(api, b, tab):
+        # a redirected record may be out of domain for the decoder it is redirected to: both runs then stop with the same error
+        out = []
+        try:
+            for x in getattr(PyKdebugParser(), api)(io.BytesIO(b), tab):
+                out.append(repr(x))
+        except Exception as ex:
+            out.append('RAISED ' + type(ex).__name__)
+        return out
+    for api in ('callstacks', 'formatted_callstacks'):
+        got, exp = run(api, blob, T2), run(api, blob_ren, T)
+        if got != exp:
+            return ('callstacks-ignore-supplied-table:' + api, {'edit': label, 'got_n': len(got), 'expected_n': len(exp)})
+    return None
+
+
 class C19(Check):
     pid = 'C19'
     level = 'exploration'
@@ -198,7 +253,8 @@ class C19(Check):
             'over a 12-name working set (remove a name, move a decodable name to a fresh id, point it at an undecodable name, '
             'swap two decodable names, add a second id for a name and use it in the stream, the empty table, a one-entry table: 114 tables) x all sequences of <=2 (quick) / <=3 (thorough) operations over 6 operation '
             'kinds x 2 threads; oracle: listing shows NAME (0xid) from the supplied table or bare hex; traces(stream, T\') == '
-            'traces(stream with ids renamed through T\', bundled table) in type, text and window; no trace for an absent id. '
+            'traces(stream with ids renamed through T\', bundled table) in type, text and window; no trace for an absent id; two lazy listings with different tables requested from one object and consumed alternately; '
+            'callstacks / formatted_callstacks under every table edit that touches a sampler name. '
             'non-trivial = edited table whose edit touches a name used by the stream.')
     assumptions = ('part B reference is the tool itself on the renamed stream under the bundled table (metamorphic)',
                    'lines are "hex-id name [anything]"; blank lines are outside the grammar')
@@ -212,6 +268,8 @@ class C19(Check):
         alphabet = [(oi, tid) for oi in range(6) for tid in (1, 2)]
         streams = list(seqs(alphabet, L, 1))
         out += [('tables', ch) for ch in chunked(streams, 60)]
+        out.append(('two-listings',))
+        out.append(('callstacks',))
         return out
 
     def run_shard(self, desc, acc):
@@ -241,6 +299,22 @@ class C19(Check):
                     if bad:
                         acc.violation(bad[0], {'kind': 'text', 'lines': ls, 'eol': eol}, bad[1])
             acc.sample({'code_table_lines': [line(0, 1, 1, 1), line(2, 0, 0, 0), line(1, 2, 2, 2)]})
+        elif desc[0] == 'two-listings':
+            eds = [e for e in edits() if e[0] in ('bundled', 'empty', 'remove:BSC_open', 'move:BSC_getpid', 'to-undecodable:VFS_LOOKUP', 'swap:BSC_open:BSC_getpid')]
+            for opseq in ([(0, 1), (1, 2)], [(1, 1)], [(0, 1), (5, 2), (1, 1)]):
+                for (l1, f1), (l2, f2) in itertools.permutations(eds, 2):
+                    bad = judge_two_listings(opseq, l1, f1, l2, f2)
+                    acc.case(nontrivial=True, transitions=2)
+                    if bad:
+                        acc.violation(bad[0] + ':two-lazy-listings', {'kind': 'two-listings', 'ops': [list(x) for x in opseq], 'edits': [l1, l2]}, bad[1])
+        elif desc[0] == 'callstacks':
+            for label, fn in edits():
+                if not any(n in label for n in ('PERF_', 'bundled', 'empty', 'only-one', 'BSC_open')):
+                    continue
+                bad = judge_callstacks_table(label, fn)
+                acc.case(nontrivial=True, transitions=4)
+                if bad:
+                    acc.violation(bad[0], {'kind': 'callstacks', 'edit': label}, bad[1])
         else:
             eds = edits()
             for opseq in desc[1]:
@@ -257,6 +331,13 @@ class C19(Check):
     def replay(self, case):
         if case['kind'] == 'text':
             bad = judge_text(case['lines'], case['eol'])
+            return [bad] if bad else []
+        if case['kind'] == 'two-listings':
+            d = dict(edits())
+            bad = judge_two_listings([tuple(x) for x in case['ops']], case['edits'][0], d[case['edits'][0]], case['edits'][1], d[case['edits'][1]])
+            return [(bad[0] + ':two-lazy-listings', bad[1])] if bad else []
+        if case['kind'] == 'callstacks':
+            bad = judge_callstacks_table(case['edit'], dict(edits())[case['edit']])
             return [bad] if bad else []
         fn = dict(edits())[case['edit']]
         return judge_supplied([tuple(x) for x in case['ops']], case['edit'], fn)
